@@ -154,6 +154,22 @@ def sim_progs(n, maxlen, seed, chk):
     return d['progs']
 
 
+def rep_progs(chk):
+    """every program of ProgRep.tla (exhaustive: repe/repne cmps/scas on concrete data with every position of the terminating
+    element, copied rep counts; after cld and after std) - one TLC transition per program"""
+    def build():
+        r = core.run_tlc('ProgRep', workers=1, timeout=600)
+        if not r.ok:
+            raise core.MachineryError('ProgRep failed:\n' + r.out[-2000:])
+        progs = [json.loads(json.loads(l)[5:]) for l in r.out.splitlines() if l.startswith('"PROG ')]
+        if not progs:
+            raise core.MachineryError('ProgRep printed no program')
+        return {'progs': progs, 'states': r.distinct}
+    d = _cache('c07_progrep_%s' % _spec_hash(['Prog.tla', 'ProgRep.tla', 'ProgRep.cfg']), build)
+    chk.add_tlc({'states': d['states'], 'transitions': d['states']})
+    return d['progs']
+
+
 # ---------------------------------------------------------------------------------------------
 # program text and bytes (GNU as: independent of the assembler under test)
 def _opnd(o, immw=32):
@@ -733,15 +749,21 @@ def run(tier, chk):
     # (b) programs
     st = collections.Counter()
     allrecs, spans = [], []
-    for maxlen, n in ((3, 60 if quick else 2000), (6, 100 if quick else 4000), (12, 140 if quick else 6000)):
-        progs = sim_progs(n, maxlen, chk.seed, chk)
+    for maxlen, n in ((0, 0), (3, 60 if quick else 2000), (6, 100 if quick else 4000), (12, 140 if quick else 6000)):
+        if maxlen == 0:
+            progs = rep_progs(chk)          # exhaustive family; the quick tier takes every second program
+            if quick:
+                progs = [p for k, p in enumerate(progs) if (k + chk.seed) % 2 == 0]
+        else:
+            progs = sim_progs(n, maxlen, chk.seed, chk)
         items = prog_items(progs, 18 if quick else 40, chk.seed)
         recs = prog_records(items, rnd, nid, st)
         nid += len(items)
         big = [r for r in recs if r['st'] == 'ok' and r['nodes'] > 60000]
         st['skipped_too_large_for_the_evaluator'] += len(big)
         recs = [r for r in recs if not (r['st'] == 'ok' and r['nodes'] > 60000)]
-        spans.append(('b:programs of %d..%d instructions (-simulate)' % (maxlen, maxlen + 1), recs))
+        spans.append((('b:programs of %d..%d instructions (-simulate)' % (maxlen, maxlen + 1)) if maxlen else
+                      'b-rep:every repe/repne cmps/scas program on concrete data and every copied-count rep program (ProgRep.tla, exhaustive)', recs))
         allrecs += recs
     ver = judge(chk, allrecs)
     st['lifted_assignments_ill_typed (C11, not judged here)'] += count_illtyped(ver)
